@@ -4,7 +4,7 @@
     sentinel and is tiled EXACTLY by free-list nodes and objects, the free list is strictly increasing,
     coalesced (no two chunks adjacent), sizes positive and aligned, all mark bits clear. *)
 From Coq Require Import ZArith List Permutation.
-From ChibiV Require Import Gen.C10_Consts C10.Model C10.Spec C10.Proofs C10.Sweep C10.Theorems C10.More C10.Oom C10.SizeClass C10.Examples C10.Closed C10.Image C10.ImageProofs C10.OneClass C10.OneClass2.
+From ChibiV Require Import Gen.C10_Consts C10.Model C10.Spec C10.Proofs C10.Sweep C10.Theorems C10.More C10.Oom C10.SizeClass C10.Examples C10.Closed C10.Image C10.ImageProofs C10.OneClass C10.OneClass2 C10.Recycle.
 Import ListNotations.
 Local Open Scope Z_scope.
 
@@ -264,3 +264,43 @@ Theorem heap_bounded_from_init : forall n, 0 < n -> (unit_sz | n) -> forall size
   total_size (fold_left step ops (init size0 max)) <= Z.max size0 (6 * Lv).
 Proof. exact heap_bounded_from_init_lemma. Qed.
 Print Assumptions heap_bounded_from_init.
+
+(** round 4 — "storage of unreachable objects is returned to the allocator and REUSED" (coq/C10/Recycle.v).
+    After the sweep of any exactly tiled state (ANY mark bits) max_freed is at least the size s of EVERY unmarked
+    object the sweep walked over, and a request of at most s bytes is served by sexp_try_alloc right away (so
+    sexp_alloc's retry needs no growth for it). *)
+Theorem dead_object_recycled : forall st st' mf sf h nd s n,
+  heaps st <> [] -> Forall heap_inv (heaps st) -> sweep st = Some (st', mf, sf) ->
+  In h (heaps st) -> In nd (hnodes h) -> In (s, false) (nrun nd) -> 0 < n -> n <= s ->
+  s <= mf /\ try_alloc st' n <> None.
+Proof. exact dead_object_recycled_lemma. Qed.
+Print Assumptions dead_object_recycled.
+
+(** [cap n st] = sum over all free chunks of floor(size / n): how many n-byte objects the free lists can take.
+    A successful sexp_try_alloc lowers it by EXACTLY one — when it splits a chunk and when it takes a whole chunk of
+    n .. n + MINIMUM - 1 bytes (a chunk of exactly n bytes in particular) ... *)
+Theorem try_alloc_cap : forall st n i o st', 0 < n -> (unit_sz | n) -> Inv st ->
+  try_alloc st n = Some (i, o, st') -> cap n st' = cap n st - 1.
+Proof. exact try_alloc_cap_lemma. Qed.
+Print Assumptions try_alloc_cap.
+
+(** ... it fails exactly when that capacity is zero ... *)
+Theorem try_alloc_none_iff_no_capacity : forall st n, 0 < n -> Inv st -> (try_alloc st n = None <-> cap n st = 0).
+Proof. exact try_alloc_none_cap_lemma. Qed.
+Print Assumptions try_alloc_none_iff_no_capacity.
+
+(** ... hence exactly [cap n st] consecutive n-byte allocations are served on the fast path (no collection, no
+    growth) and the next one is not: k holes of one object each are ALL refilled before sexp_alloc collects. *)
+Theorem fast_path_count : forall k st n, 0 < n -> (unit_sz | n) -> Inv st ->
+  ((exists st', iter_try k st n = Some st') <-> Z.of_nat k <= cap n st).
+Proof. exact fast_path_count_lemma. Qed.
+Print Assumptions fast_path_count.
+
+(** exact fit: when the first chunk that is large enough has exactly the requested size, the object is placed at
+    that chunk's address, that chunk leaves the free list, every other chunk keeps its offset and size. *)
+Theorem exact_fit_refilled : forall h s pre m post n,
+  hnodes h = s :: pre ++ m :: post -> Forall (fun x => nsize x < n) pre -> nsize m = n -> 0 < min_obj ->
+  exists h', try_heap h n = Some (noff m, h') /\ hsize h' = hsize h /\
+             free_list h' = map nshape (pre ++ post).
+Proof. exact exact_fit_refilled_lemma. Qed.
+Print Assumptions exact_fit_refilled.
